@@ -568,12 +568,61 @@ func EdgeCmps(fn *ssa.Function) map[Edge]Cmp {
 }
 
 // EdgesWhere selects the conditional edges whose established comparison (in either
-// operand order) satisfies pred.
+// operand order) satisfies pred. Short-circuit conditions that were compiled to a
+// boolean phi (`switch { case a && b: }`) are handled: the edge out of the phi's branch
+// counts when, for every way of entering the branch block that is not itself a selected
+// edge and is compatible with the edge's polarity, the incoming comparison satisfies pred.
 func EdgesWhere(fn *ssa.Function, pred func(Cmp) bool) map[Edge]bool {
 	out := map[Edge]bool{}
 	for e, c := range EdgeCmps(fn) {
 		if pred(c) || pred(c.Flip()) {
 			out[e] = true
+		}
+	}
+	for pass := 0; pass < 3; pass++ {
+		for _, b := range fn.Blocks {
+			if len(b.Instrs) == 0 || len(b.Succs) != 2 || b.Succs[0] == b.Succs[1] {
+				continue
+			}
+			iff, ok := b.Instrs[len(b.Instrs)-1].(*ssa.If)
+			if !ok {
+				continue
+			}
+			phi, ok := iff.Cond.(*ssa.Phi)
+			if !ok || phi.Block() != b {
+				continue
+			}
+			for si, succ := range b.Succs {
+				taken := si == 0
+				if out[Edge{b, succ}] {
+					continue
+				}
+				all := true
+				any := false
+				for pi, p := range b.Preds {
+					if out[Edge{p, b}] {
+						continue
+					}
+					v := phi.Edges[pi]
+					if k, isK := v.(*ssa.Const); isK && k.Value != nil {
+						isTrue := k.Value.String() == "true"
+						if isTrue != taken {
+							continue // infeasible from this predecessor
+						}
+						all = false
+						break
+					}
+					c, isCmp := (Guard{iff, v, taken}).AsCmp()
+					if !isCmp || !(pred(c) || pred(c.Flip())) {
+						all = false
+						break
+					}
+					any = true
+				}
+				if all && any {
+					out[Edge{b, succ}] = true
+				}
+			}
 		}
 	}
 	return out
